@@ -35,19 +35,23 @@ impl<I: PollSyscall> PollSyscall for NioPollSyscall<I> {
         nfds: nfds_t,
         timeout: c_int,
     ) -> c_int {
-        let mut t = if timeout < 0 { c_int::MAX } else { timeout };
+        // the waits below are rounded up to the event loop's passes, so the time left
+        // is taken from the clock instead of being counted down nominally
+        let deadline = u64::try_from(timeout).map_or(u64::MAX, |ms| {
+            crate::common::get_timeout_time(Duration::from_millis(ms))
+        });
         let mut x = 1;
         let mut r;
         // just check poll every x ms
         loop {
             r = self.inner.poll(fn_ptr, fds, nfds, 0);
-            if r != 0 || t == 0 {
+            let left = deadline.saturating_sub(crate::common::now());
+            if r != 0 || left == 0 {
                 break;
             }
-            _ = EventLoops::wait_event(Some(Duration::from_millis(t.min(x).try_into().expect("overflow"))));
-            if t != c_int::MAX {
-                t = if t > x { t - x } else { 0 };
-            }
+            _ = EventLoops::wait_event(Some(
+                Duration::from_nanos(left).min(Duration::from_millis(x)),
+            ));
             if x < 16 {
                 x <<= 1;
             }
